@@ -188,9 +188,6 @@ DEBUG_ASSERT_UNDECIDED = {
     ("CircularSlicePtr::as_mut_ptr", "assert"): (1, "offset < slice_len"),
     ("CircularSlicePtr::as_ptr", "assert"): (1, "offset < slice_len"),
     ("CircularSlicePtr::available_len", "assert"): (1, "offset < slice_len"),
-    ("Drain::as_mut_slices", "assert"): (1, "buf_size <= N: saved size"),
-    ("Drain::as_slices", "assert"): (1, "buf_size <= N: saved size"),
-    ("Drain::read", "assert"): (3, "index within buffer / drain range / already yielded: Range iterator contract"),
     ("Iter::advance_back_by", "assert"): (1, "take_right <= right.len(): range arithmetic"),
     ("Iter::advance_front_by", "assert"): (1, "take_left <= left.len(): range arithmetic"),
     ("IterMut::advance_back_by", "assert"): (1, "take_right <= right.len(): range arithmetic"),
